@@ -210,6 +210,7 @@ func (w *World) absExplore(fn *ssa.Function, start, pred *ssa.BasicBlock, init m
 		}
 		seen[k] = true
 		n++
+		w.statAbsStates++
 		if n > 20000 {
 			return n, false
 		}
